@@ -30,12 +30,12 @@ def _write_cfg(ctx, name, consts, tail):
 
 
 def _consts(nids=3, naddrs=3, filt=(), defect=True, maxlen=2, bad=False, dup=False, depth=2, sim=False, mixed=True,
-            burst=0, ordered=True, split=False, c0peer="a0", late=False):
+            burst=0, ordered=True, split=False, c0peer="a0", late=False, schema=False):
     b = lambda x: "TRUE" if x else "FALSE"
     return collections.OrderedDict(
         Ids=_tla_set("i%d" % k for k in range(1, nids + 1)), Addrs=_tla_set("a%d" % k for k in range(1, naddrs + 1)),
         Filt=_tla_set(filt), DefectByAddr=b(defect), C0peer='"%s"' % c0peer, MaxLen=maxlen,
-        WithBad=b(bad), WithDup=b(dup), WithSplit=b(split), LateEvents=b(late), GenDepth=depth,
+        WithBad=b(bad), WithDup=b(dup), WithSplit=b(split), LateEvents=b(late), SchemaPlan=b(schema), GenDepth=depth,
         Sim=b(sim), Mixed=b(mixed), Burst=burst, Ordered=b(ordered))
 
 
@@ -66,9 +66,13 @@ def _thin(hists, per_prefix, rnd):
     return out
 
 
-def _scenarios(hists, first, mode="direct", nids=3, naddrs=3, filt=(), src="", c0peer="a0"):
-    return [dict(n=first + k, mode=mode, nids=nids, naddrs=naddrs, filt=list(filt), c0peer=c0peer, init=[], exp0=h["exp0"],
-                 steps=h["steps"], src=src) for k, h in enumerate(hists)]
+POLICIES = ("rr", "ta-rr", "ta-dc")    # round robin; token aware over round robin / DC aware (session keyspace "ks")
+
+
+def _scenarios(hists, first, mode="direct", nids=3, naddrs=3, filt=(), src="", c0peer="a0", policies=("rr",)):
+    """policies: the host selection policies the histories are run with, in rotation."""
+    return [dict(n=first + k, mode=mode, nids=nids, naddrs=naddrs, filt=list(filt), c0peer=c0peer, policy=policies[k % len(policies)],
+                 init=[], exp0=h["exp0"], steps=h["steps"], src=src) for k, h in enumerate(hists)]
 
 
 # ------------------------------------------------------------------ real code
@@ -250,6 +254,10 @@ def _after_model(ctx, quick, rnd, binary, defect, runs):
     jobs.append(("split-late-3", dict(c0peer="b0"), lambda: _gen(
         ctx, "gen_split3.cfg", _consts(defect=defect, depth=3, mixed=False, maxlen=1 if quick else 2, split=True, late=True, c0peer="b0"),
         workers=2)[0]))
+    # token aware policy with a session keyspace: refresh; the keyspace metadata becomes unavailable /
+    # empty / stays readable while a schema event drops the cached copy; then any step
+    jobs.append(("schema-3", dict(policies=("ta-rr", "ta-dc"), twice=True), lambda: _gen(
+        ctx, "gen_schema3.cfg", _consts(defect=defect, depth=3, mixed=True, maxlen=2, schema=True), workers=2)[0]))
     if not quick:
         jobs.append(("split-mixed-2", dict(c0peer="b0"), lambda: _gen(
             ctx, "gen_split2.cfg", _consts(defect=defect, depth=2, mixed=True, maxlen=1, split=True, c0peer="b0"), workers=2)[0]))
@@ -258,20 +266,28 @@ def _after_model(ctx, quick, rnd, binary, defect, runs):
                      lambda: _gen(ctx, "gen_ref3m.cfg", _consts(defect=defect, depth=2, mixed=False, maxlen=3, dup=True), workers=2)[0]))
     for filt in ((), ("a3",), ("a1", "a2")):
         c0 = "b0" if len(filt) != 1 else "a0"
-        jobs.append(("sim-filter%d" % len(filt), dict(filt=filt, c0peer=c0), (lambda filt=filt, c0=c0: _thin(_gen(
+        jobs.append(("sim-filter%d" % len(filt), dict(filt=filt, c0peer=c0, policies=POLICIES), (lambda filt=filt, c0=c0: _thin(_gen(
             ctx, "gen_sim%d.cfg" % len(filt), _consts(defect=defect, depth=dep, sim=True, bad=True, dup=True, maxlen=3, filt=filt, burst=24,
-                                                       split=True, c0peer=c0),
+                                                       split=True, c0peer=c0, schema=True),
             simulate="num=%d" % (ntr if len(filt) < 2 else ntr // 3), depth=dep + 1, seed=ctx.seed * 7 + len(filt), timeout=900)[0], 2, rnd))))
     if not quick:
-        jobs.append(("sim-4x4", dict(nids=4, naddrs=4, c0peer="b0"), lambda: _thin(_gen(
-            ctx, "gen_sim44.cfg", _consts(nids=4, naddrs=4, defect=defect, depth=7, sim=True, bad=True, dup=True, maxlen=2, split=True, c0peer="b0"),
+        jobs.append(("sim-4x4", dict(nids=4, naddrs=4, c0peer="b0", policies=POLICIES), lambda: _thin(_gen(
+            ctx, "gen_sim44.cfg", _consts(nids=4, naddrs=4, defect=defect, depth=7, sim=True, bad=True, dup=True, maxlen=2, split=True, c0peer="b0", schema=True),
             simulate="num=300", depth=8, seed=ctx.seed * 7 + 5, timeout=1200)[0], 2, rnd)))
     with cf.ThreadPoolExecutor(4) as ex:
         results = list(ex.map(lambda j: j[2](), jobs))
     for (src, kw, _), hs in zip(jobs, results):
+        kw = dict(kw)
         if quick and src == "all-refresh-3":
             rnd.shuffle(hs)
-            hs, src = hs[:900], "refresh-3-sample"
+            hs, src = hs[:600], "refresh-3-sample"
+        if src in ("all-refresh-3", "refresh-3-sample"):
+            kw["policies"] = POLICIES
+        if kw.pop("twice", False):      # every history with each of the policies
+            pols = kw.pop("policies")
+            for pol in pols[1:]:
+                scs.extend(_scenarios(hs, len(scs), src=src, policies=(pol,), **kw))
+            kw["policies"] = pols[:1]
         if src == "all-mixed-2":
             h2 = hs
         scs.extend(_scenarios(hs, len(scs), src=src, **kw))
@@ -279,9 +295,9 @@ def _after_model(ctx, quick, rnd, binary, defect, runs):
     direct = list(scs)
     # end to end: EVENT frames on the control connection, real debouncers, heartbeat reconnection
     nw = 24 if quick else 160
-    hs, _ = _gen(ctx, "gen_wire.cfg", _consts(defect=defect, depth=3 if quick else 4, sim=True, bad=False, dup=False, maxlen=3, burst=40, ordered=False, split=True),
+    hs, _ = _gen(ctx, "gen_wire.cfg", _consts(defect=defect, depth=3 if quick else 4, sim=True, bad=False, dup=False, maxlen=3, burst=40, ordered=False, split=True, schema=True),
                  simulate="num=%d" % nw, depth=5, seed=ctx.seed * 7 + 3, timeout=600)
-    wire = _scenarios(_thin(hs, 1, rnd)[:nw], len(scs), mode="wire", src="wire")
+    wire = _scenarios(_thin(hs, 1, rnd)[:nw], len(scs), mode="wire", src="wire", policies=POLICIES)
     scs += wire
     gen_stats["wire"] = len(wire)
     ctx.log("histories: %s" % gen_stats)
@@ -338,7 +354,8 @@ def _after_model(ctx, quick, rnd, binary, defect, runs):
         "peer rows have distinct addresses (system.peers is keyed by the peer address); a host id may be reported twice; "
         "a node's node-to-node address is its connect address aK or a private address bK of its own",
         "the control connection stays on / returns to the dedicated control node (the other nodes refuse system.local)",
-        "round-robin policy observed; direct-mode histories bypass the two 1 s debounce timers (the wire-mode ones do not)",
+        "offered hosts = the query plans (Pick) of an unrouted query and of one query routed into every host's token range; "
+        "policies: round robin, token aware over round robin and over DC aware (one DC, SimpleStrategy RF 2); direct-mode histories bypass the two 1 s debounce timers (the wire-mode ones do not)",
         "bounded: 3 ids x 3 addresses (4 x 4 sampled in the thorough tier), depth as in model_configs",
     ]
 
